@@ -99,6 +99,18 @@ def apply(c):
         requires Self::wf_dec(data, p, v1, e1), Self::wf_dec(data, p, v2, e2),
         ensures e1 == e2, v1.wf_eqv(v2), // @C02:decoder-deterministic,C03:decoder-deterministic,C11:decoder-deterministic
     ;
+    /// ghost: the value's encoding is representable (only ResourceRecord has a non-trivial answer: RDLENGTH is 16 bits and
+    /// compression pointers inside a received RDATA may expand beyond it)
+    spec fn wf_fit(&self) -> bool;
+    /// everything the decoder yields from a DNS-sized message (and whose re-encoding is representable) is within limits and
+    /// canonical, i.e. satisfies the preconditions of the writers: a parsed value can be written back
+    proof fn lemma_dec_ok(data: Seq<u8>, p: int, v: &Self, p2: int) where Self: Sized
+        requires Self::wf_dec(data, p, v, p2), 0 <= p < data.len() <= 65535, v.wf_fit(),
+        ensures v.wf_ok(), v.wf_canon(), // @C11:parsed-values-can-be-written-back
+                Self::wf_empty_ok() || v.wf_enc().len() > 0, // a decoded value has a non-empty encoding (it does not read back as an empty record)
+    ;
+    /// ghost: the type's encoding may be empty (only OPT: an OPT record without options has an empty RDATA)
+    spec fn wf_empty_ok() -> bool where Self: Sized;
     /// round trip: the encoding of a value, appended to any prefix, decodes to that value
     proof fn lemma_rt(&self, pre: Seq<u8>) where Self: Sized
         requires self.wf_ok(), self.wf_canon(),
